@@ -225,7 +225,7 @@ class Tr:
             elif k < 0.95:
                 self.add(plain_op(r, W))
             elif k < 0.97:
-                self.add({"op": "reload", "mode": r.choice(["full", "eps", "mmap", "load_full", "load_mem", "load_mmap"])})
+                self.add({"op": "reload", "mode": r.choice(["full", "eps", "mmap", "load_full", "load_mem", "load_mmap", "eps8"])})
                 m = self.ops[-1]["mode"]
                 self.form = "vec" if m in ("full", "load_full") else "ro"
             else:
@@ -722,7 +722,7 @@ def reload_episodes(seed, count):
     the loaded instance (which replaces the vector under test)."""
     r = random.Random(seed ^ 0xC15)
     eps = []
-    modes = ["full", "eps", "mmap", "load_full", "load_mem", "load_mmap"]
+    modes = ["full", "eps", "mmap", "load_full", "load_mem", "load_mmap", "eps8"]
     for k in range(count):
         wt = WTS[k % len(WTS)]
         W = WT[wt]
